@@ -217,6 +217,10 @@ func builtinStringReplace(call FunctionCall) Value {
 
 	found := search.FindAllSubmatchIndex(target, find)
 	if found == nil {
+		if searchValue.isRegExp() {
+			// ES5 15.5.4.11: the search is done as in match; a failing exec resets lastIndex.
+			searchObject.put("lastIndex", intValue(0), true)
+		}
 		return stringValue(string(target)) // !match
 	}
 
@@ -261,7 +265,8 @@ func builtinStringReplace(call FunctionCall) Value {
 	}
 
 	if global && searchObject != nil {
-		searchObject.put("lastIndex", intValue(lastIndex), true)
+		// The global loop ends with a failing exec, which leaves lastIndex at 0.
+		searchObject.put("lastIndex", intValue(0), true)
 	}
 
 	return stringValue(string(result))
